@@ -1008,8 +1008,11 @@ class Visitor(ast.NodeVisitor):
         so they need not be defined at all. Hence, the errors in their re-computation are ignored.
         """
         nodes = list(parts)  # type: List[ast.expr]
-        for generator in generators:
-            nodes.append(generator.iter)
+        for i, generator in enumerate(generators):
+            # The first iterable has been already visited in the enclosing scope.
+            if i > 0:
+                nodes.append(generator.iter)
+
             nodes.extend(generator.ifs)
 
         for a_node in nodes:
@@ -1044,6 +1047,9 @@ class Visitor(ast.NodeVisitor):
         # re-compilation. This final step is skipped if any of the names involved in the comprehension are
         # PLACEHOLDER's.
 
+        # The first iterable is evaluated in the enclosing scope, before any of the targets is bound.
+        self.visit(node.generators[0].iter)
+
         old_name_to_value = copy.copy(self._name_to_value)
         for target_name in _collect_stored_names(
             [generator.target for generator in node.generators]
@@ -1065,6 +1071,9 @@ class Visitor(ast.NodeVisitor):
         # The note also explains why we do not use the result of the following visits.
 
         # Please see "NOTE ABOUT NAME 🠒 VALUE STACKING".
+        # The first iterable is evaluated in the enclosing scope, before any of the targets is bound.
+        self.visit(node.generators[0].iter)
+
         old_name_to_value = copy.copy(self._name_to_value)
         for target_name in _collect_stored_names(
             [generator.target for generator in node.generators]
@@ -1088,6 +1097,9 @@ class Visitor(ast.NodeVisitor):
         # The note also explains why we do not use the result of the following visits.
 
         # Please see "NOTE ABOUT NAME 🠒 VALUE STACKING".
+        # The first iterable is evaluated in the enclosing scope, before any of the targets is bound.
+        self.visit(node.generators[0].iter)
+
         old_name_to_value = copy.copy(self._name_to_value)
         for target_name in _collect_stored_names(
             [generator.target for generator in node.generators]
@@ -1111,6 +1123,9 @@ class Visitor(ast.NodeVisitor):
         # The note also explains why we do not use the result of the following visits.
 
         # Please see "NOTE ABOUT NAME 🠒 VALUE STACKING".
+        # The first iterable is evaluated in the enclosing scope, before any of the targets is bound.
+        self.visit(node.generators[0].iter)
+
         old_name_to_value = copy.copy(self._name_to_value)
         for target_name in _collect_stored_names(
             [generator.target for generator in node.generators]
